@@ -5,8 +5,8 @@ from func_adl.ast.function_simplifier import simplify_chained_calls
 
 from vlib.sh.common import HI, LO, TWIN, L, attr, call, const, dump, lam, mcall, name, nt, pick, sub, tick
 
-PACKS = 7      # producer kinds
-CONS = 6       # consumer kinds
+PACKS = 8      # producer kinds
+CONS = 8       # consumer kinds
 NCODES = PACKS * CONS
 NAMES = [("x", "y", "z"), ("e", "e", "e"), ("x", "x", "y")]
 
@@ -29,9 +29,11 @@ def pack(pk, v, arity, k0, k1):
             [(lambda w: sub(sub(name(w), k0), 1), "i"), (lambda w: ast.Attribute(sub(name(w), k1), k1, L), "i"), (lambda w: sub(ast.Attribute(name(w), k0, L), 0), "i")]
     if pk == 5:   # a sequence and a scalar travelling together
         return ast.Tuple([attr(v, "js"), f(1)], L), [(lambda w: sub(name(w), 0), "s"), (lambda w: sub(name(w), 1), "i"), (lambda w: sub(name(w), 0), "s")]
-    # pk 6: dict with a sequence
-    return ast.Dict([const(k0), const(k1)], [attr(v, "js"), f(1)]), [(lambda w: sub(name(w), k0), "s"), (lambda w: ast.Attribute(name(w), k1, L), "i"),
-                                                                       (lambda w: ast.Attribute(name(w), k0, L), "s")]
+    if pk == 6:   # dict with a sequence
+        return ast.Dict([const(k0), const(k1)], [attr(v, "js"), f(1)]), [(lambda w: sub(name(w), k0), "s"), (lambda w: ast.Attribute(name(w), k1, L), "i"),
+                                                                           (lambda w: ast.Attribute(name(w), k0, L), "s")]
+    # pk 7: dict with integer keys
+    return ast.Dict([const(0), const(1)], [attr(v, "js"), f(1)]), [(lambda w: sub(name(w), 0), "s"), (lambda w: sub(name(w), 1), "i"), (lambda w: sub(name(w), 0), "s")]
 
 
 def build(pk, cons, arity, idx, k0, k1, form, ns):
@@ -60,9 +62,25 @@ def build(pk, cons, arity, idx, k0, k1, form, ns):
             inner = S(proj(b), lam("j", ast.BinOp(attr("j", "pt"), ast.Add(), other(b))))
             return S(s1, lam(b, call("Count", inner)))
         return S(S(s1, lam(b, ast.Dict([const("p"), const("q")], [scalar(b), other(b)]))), lam(c, ast.BinOp(ast.Attribute(name(c), "p", L), ast.Sub(), sub(name(c), "q"))))
-    # cons 5: three stages, last stage builds the final result tuple out of projections (allowed to remain)
-    mid = W(s1, lam(b, ast.Compare(scalar(b), [ast.Gt()], [const(2)])))
-    return S(mid, lam(c, ast.Tuple([scalar(c), other(c)], L)))
+    if cons == 5:     # three stages, last stage builds the final result tuple out of projections (allowed to remain)
+        mid = W(s1, lam(b, ast.Compare(scalar(b), [ast.Gt()], [const(2)])))
+        return S(mid, lam(c, ast.Tuple([scalar(c), other(c)], L)))
+    if cons == 6:     # nested chain over the packaged sequence whose Where only looks at ANOTHER packaged field
+        if kind != "s":
+            return None
+        inner = W(S(proj(b), lam("j", attr("j", "pt"))), lam("p", ast.Compare(other(b), [ast.Gt()], [const(30)])))
+        return S(s1, lam(b, call("Count", inner)))
+    # cons 7: SelectMany producing one package per inner element, taken apart by a second SelectMany
+    if pk == 0:
+        per = ast.Tuple([name("j"), attr(a, "f1")], L)
+        p0, p1 = (lambda w: sub(name(w), 0)), (lambda w: sub(name(w), 1))
+    elif pk == 2:
+        per = ast.Dict([const(k0), const(k1)], [name("j"), attr(a, "f1")])
+        p0, p1 = (lambda w: sub(name(w), k0)), (lambda w: ast.Attribute(name(w), k1, L))
+    else:
+        return None
+    m1 = M(name("ds"), lam(a, S(attr(a, "js"), lam("j", per))))
+    return M(m1, lam(b, S(attr(p0(b), "trk"), lam("k", ast.BinOp(attr("k", "pt"), ast.Add(), p1(b))))))
 
 
 def residue(r, cons):
@@ -80,7 +98,7 @@ def residue(r, cons):
 
 def c14(code: int, arity: int, idx: int, k0: str, k1: str, form: int, ns: int) -> str:
     """
-    pre: LO <= code < HI and 0 <= code < 42
+    pre: LO <= code < HI and 0 <= code < 64
     pre: 1 <= arity <= 3 and 0 <= idx <= 2 and 0 <= form <= 0 and 0 <= ns <= 2
     pre: len(k0) <= 2 and len(k1) <= 2 and k0 != k1
     post: (_ == '') != TWIN
@@ -90,7 +108,7 @@ def c14(code: int, arity: int, idx: int, k0: str, k1: str, form: int, ns: int) -
 
 def c14t(code: int, arity: int, idx: int, k0: str, k1: str, form: int, ns: int) -> str:
     """
-    pre: LO <= code < HI and 0 <= code < 42
+    pre: LO <= code < HI and 0 <= code < 64
     pre: 1 <= arity <= 3 and 0 <= idx <= 2 and 0 <= form <= 1 and 0 <= ns <= 2
     pre: len(k0) <= 3 and len(k1) <= 3 and k0 != k1
     post: (_ == '') != TWIN
@@ -108,7 +126,13 @@ def body(code, arity, idx, k0, k1, form, ns):
     else:
         if arity != 3:
             return ""       # arity only varies for flat tuples / lists
+    if (pk == 7 and cons in (2, 3, 5)) or (cons == 6 and pk not in (5, 6, 7)) or (cons == 7 and pk not in (0, 2)):
+        return ""       # combinations that add nothing (kept out to bound the run time)
+    if cons == 7 and (arity != 3 or idx != 0):
+        return ""
     q = build(pk, cons, arity, idx, k0, k1, form, ns)
+    if q is None:
+        return ""
     if form == 1:
         from func_adl.ast.func_adl_ast_utils import change_extension_functions_to_calls
         q = change_extension_functions_to_calls(q)
